@@ -228,6 +228,27 @@ class Ctx:
         self._ro(a)
         return self.own(a, name)
 
+    def par(self, value, name, kinds=('int', 'float', 'list', 'intview', 'plain'), force=None):
+        """A small parameter-like argument (box size, shape, radii, labels, bounds ...) as a caller-owned
+        object: int ndarray, float ndarray, strided view of an int ndarray, list, or the plain Python value.
+        Registered like every other argument, so the sentinels compare it."""
+        k = force or kinds[int(self.rng.integers(0, len(kinds)))]
+        if k == 'plain':
+            return value
+        if k == 'list':
+            v = np.asarray(value).tolist()
+            if not isinstance(v, list):
+                return v
+            return self.own(v, name + '_list')
+        if k == 'float':
+            return self.own(np.array(value, dtype=float), name + '_f8')
+        a = np.array(value, dtype=[np.int64, np.int32, np.intp][int(self.rng.integers(0, 3))])
+        if k == 'intview' and a.ndim == 1:
+            big = np.full(2 * a.size + 1, -7, dtype=a.dtype)
+            big[1::2] = a
+            return self.own(big[1::2], name + '_iview')
+        return self.own(a, name + '_int')
+
     def q(self, x):
         """Attach the scene unit to a threshold/background-like value when the scene is a Quantity."""
         return x * self.unit if self.unit is not None else x
